@@ -36,14 +36,24 @@ func (f *fallbackSrv) ServeDNS(w dns.ResponseWriter, req *dns.Msg) {
 
 func startFallback() *fallbackSrv {
 	f := &fallbackSrv{}
-	pc, err := net.ListenPacket("udp", "127.0.0.1:0")
-	if err != nil {
-		panic(err)
-	}
-	f.addr = pc.LocalAddr().String()
-	ln, err := net.Listen("tcp", f.addr)
-	if err != nil {
-		panic(err)
+	// one port free for UDP and TCP alike (another process may hold the TCP side)
+	var pc net.PacketConn
+	var ln net.Listener
+	for i := 0; ; i++ {
+		var err error
+		pc, err = net.ListenPacket("udp", "127.0.0.1:0")
+		if err != nil {
+			panic(err)
+		}
+		f.addr = pc.LocalAddr().String()
+		ln, err = net.Listen("tcp", f.addr)
+		if err == nil {
+			break
+		}
+		pc.Close()
+		if i > 200 {
+			panic(err)
+		}
 	}
 	f.udp = &dns.Server{PacketConn: pc, Handler: f}
 	f.tcp = &dns.Server{Listener: ln, Handler: f}
